@@ -13,9 +13,9 @@ claimed = {
    note=TB+"sort.Sort's contract (terminates with a non-decreasing permutation given a strict weak order) is assumed.",
    technique=DED, design="3 (C02)"),
  "C03": dict(
-   text="Unbounded deductive proof of parseInto/Parse/UnmarshalControl against the statement: accepted input yields exactly epoch (digits before the first colon), upstream, revision (after the last hyphen); acceptance implies well-formedness (all rejection classes) and every well-formed string is accepted (completeness); a value xor an error; String/StringWithoutEpoch/MarshalControl equal the exact rendering. The render-then-parse round trip itself is checked by the bounded stand-in (all strings up to length 6/7 over a 12-letter alphabet), labelled bounded.",
-   note=TB+"strings.TrimSpace/Index/LastIndex/IndexFunc, strconv.ParseInt, unicode.IsSpace/IsDigit, fmt.Sprintf(%d,%s) contracts are assumed (stdlib/strings.spec). Round trip: bounded only.",
-   technique=DED+"; bounded exhaustive stand-in for the round-trip composition", design="3 (C03)"),
+   text="Unbounded deductive proof of parseInto/Parse/UnmarshalControl against the statement: accepted input yields exactly epoch (digits before the first colon), upstream, revision (after the last hyphen); acceptance implies well-formedness (all rejection classes) and every well-formed string is accepted (completeness); a value xor an error; String/StringWithoutEpoch/MarshalControl equal the exact rendering. The round trip is proved as a lemma over those two contracts, for every version the parser can return and with no bound: the rendered text is untouched by trimming, well formed, and its epoch / upstream / revision are the version's (inductive lemmas on the position of the first colon and the last hyphen and on the value of the digit prefix). A bounded stand-in (all strings up to length 6/7 over a 12-letter alphabet) runs beside it.",
+   note=TB+"strings.TrimSpace/Index/LastIndex/IndexFunc/Contains, strconv.ParseInt, unicode.IsSpace/IsDigit, fmt.Sprintf(%d,%s) contracts are assumed (stdlib/strings.spec). MarshalText/UnmarshalText and encoding/json wrap the same two functions and are covered by the bounded part only.",
+   technique=DED, design="3 (C03), 7.4"),
  "C04": dict(
    text="Deductive proof, for all inputs, of every function of the dependency parser (17 functions, 16 loops): cursor discipline, no panic, termination, frames, and the rejection facts of the statement as postconditions (success only in front of ',', '|' or the end - so two names without separator are rejected; a version clause only closed by ')', an arch list by ']', a profile group by '>', a substvar by '}' followed by a separator; only the five operators; Parse returns a value xor an error; UnmarshalControl leaves its receiver alone when the field is rejected). That parsing a rendered AST gives back the AST is checked by the bounded stand-in (14.6 M renderings and corruptions), labelled bounded.",
    note=TB+"The positive half (parse(render(AST)) = AST) is bounded, not proved.",
@@ -25,7 +25,7 @@ claimed = {
    note=TB+"Strings are compared only for equality here, so the uninterpreted string sort is exact.",
    technique=DED, design="3 (C06)"),
  "C18": dict(
-   text="Deductive proof for the version and dependency/architecture parsers (45 functions so far): every BOUNDS/NIL/OVERFLOW/DIV0 obligation (no panic), a decreases clause on every loop and recursion (no hang), value-xor-error postconditions, and checked modifies frames (no write outside arguments and fresh objects, no global writes: calls on disjoint inputs commute). The control-paragraph, typed-document and changelog parsers and the dynamic race detector are covered by the bounded stand-in (all byte strings up to length 4 per entry point, 233 k mutated seed documents, 64-way concurrent parsing, go run -race in the thorough tier), labelled bounded.",
+   text="Deductive proof for the version, architecture, dependency, control-paragraph (reader, clearsign front end, checksum and file-list line parsers) and changelog parsers (about 80 functions, 1250 obligations): every BOUNDS/NIL/OVERFLOW/DIV0 obligation (no panic), a decreases clause on every loop and recursion (no hang), value-xor-error postconditions, and checked modifies frames (no write outside arguments and fresh objects, no global writes: calls on disjoint inputs commute). The reflective typed-document decoders and the dynamic race detector are covered by the bounded stand-in (all byte strings up to length 4 per entry point, 233 k mutated seed documents, 64-way concurrent parsing, go run -race in the thorough tier), labelled bounded.",
    note=TB+"Reflection-based decoders and scheduling are outside the verifier; they are only exercised by the bounded harness.",
    technique=DED+"; bounded exhaustive stand-in for the remaining entry points", design="3 (C18)"),
 
